@@ -60,6 +60,8 @@ pub struct HState {
     pub obs: super::c16::ObsState,
     /// deviating rounds taken so far on this path
     pub deviations: u8,
+    /// parties that entered the group through a Welcome or an external commit (seed script included)
+    pub joiners: std::collections::BTreeSet<usize>,
 }
 
 #[derive(Clone, Debug, PartialEq, Eq)]
@@ -96,7 +98,7 @@ impl HistoryModel {
         for p in 0..self.n_parties {
             w.set_psk(p, 0, b"psk-zero-value".to_vec());
         }
-        HState { w, pending_adds: vec![], last_round_msgs: vec![], obs: Default::default(), deviations: 0 }
+        HState { w, pending_adds: vec![], last_round_msgs: vec![], obs: Default::default(), deviations: 0, joiners: Default::default() }
     }
 
     /// Scripted seed: apply a list of rounds through the same step function (oracles included).
@@ -164,6 +166,10 @@ impl HistoryModel {
         // parents that other members filled
         let mut s14 = s12.clone();
         s14.extend([c(0, vec![Remove(3)]), c(5, vec![Remove(6)]), c(1, vec![Add(3), Add(6)])]);
+        // nine members (16-leaf tree), then leaves 1..3 blanked: A _ _ _ E F G H | I. A joiner added
+        // by A with a path lands at leaf 1 below a filtered node (3) that has unfiltered nodes above
+        let mut s16 = s12.clone();
+        s16.extend([c(0, vec![Add(8)]), c(8, vec![]), c(0, vec![Remove(1), Remove(2), Remove(3)])]);
         let all: Vec<(&str, Vec<Act>)> = vec![
             ("S0", vec![]),
             ("S1", s1),
@@ -180,6 +186,7 @@ impl HistoryModel {
             ("S12", s12),
             ("S13", s13),
             ("S14", s14),
+            ("S16", s16),
         ];
         let mut out = vec![];
         for (name, acts) in all {
@@ -187,7 +194,7 @@ impl HistoryModel {
                 continue;
             }
             // the 8-member seeds are used only where a model asks for them by name
-            if matches!(name, "S12" | "S13" | "S14") && (self.seeds.is_empty() || self.n_parties < 8) {
+            if matches!(name, "S12" | "S13" | "S14" | "S16") && (self.seeds.is_empty() || self.n_parties < 9) {
                 continue;
             }
             if let Some(s) = self.script(cfg, name, acts, ctx) {
@@ -490,7 +497,11 @@ impl HistoryModel {
                     let sig = format!("receiver-rejects-honest-commit|{}", err_name(&e));
                     let det = format!("{} rejects the commit of {} at epoch {e0}: {e:?}", w.parties[p].name, w.parties[by].name);
                     ctx.violation_for("C01", sig.clone(), det.clone());
-                    ctx.violation_for("C10", sig, det);
+                    ctx.violation_for("C10", sig, det.clone());
+                    if s.joiners.contains(&p) {
+                        // a party that joined through a Welcome / external commit must be able to follow the group
+                        ctx.violation_for("C07", format!("joiner-cannot-follow-the-group|{}", err_name(&e)), det);
+                    }
                     return Step::Stop;
                 }
             }
@@ -559,6 +570,7 @@ impl HistoryModel {
                 Ok(()) => {
                     ctx.outcome("join:ok");
                     joined_now.push(*x);
+                    s.joiners.insert(*x);
                     self.joiner_check(w, *x, kp, ctx);
                 }
                 Err(e) if spec.props.iter().any(|p| matches!(p, Prop::ResumptionPsk(_))) && err_name(&e) == "OldGroupStateNotFound" => {
@@ -749,6 +761,7 @@ impl HistoryModel {
             });
         }
         w.parties[by].group = Some(new_group);
+        s.joiners.insert(by);
         s.pending_adds.clear();
         ctx.goal("external-commit");
         self.after_epoch_change(w, "external-commit", Some(by), &prev_tree_bytes, true, ctx);
